@@ -62,6 +62,47 @@ pub fn rich_history(start: &Pos, rng: &mut Rng, max_plies: usize) -> History {
     History { start: start.clone(), moves, end: p }
 }
 
+/// A very long game: one shuffle repeated `cycles` times (counts beyond 255 need more than a
+/// thousand plies), a few free moves before and after.
+pub fn long_history(start: &Pos, rng: &mut Rng, cycles: usize) -> Option<History> {
+    let mut p = start.clone();
+    let mut moves: Vec<Mv> = Vec::new();
+    for _ in 0..rng.below(6) {
+        let ms = legal_moves(&p);
+        if ms.is_empty() {
+            break;
+        }
+        let m = workload::choose_move(rng, &p, &ms, Policy::Mixed);
+        let np = apply(&p, m);
+        if !has_legal_move(&np) {
+            break;
+        }
+        moves.push(m);
+        p = np;
+    }
+    let cyc = find_cycle(&p, rng)?;
+    for _ in 0..cycles {
+        for m in cyc {
+            moves.push(m);
+            p = apply(&p, m);
+        }
+    }
+    for _ in 0..rng.below(3) {
+        let ms = legal_moves(&p);
+        if ms.is_empty() {
+            break;
+        }
+        let m = workload::choose_move(rng, &p, &ms, Policy::Mixed);
+        let np = apply(&p, m);
+        if !has_legal_move(&np) {
+            break;
+        }
+        moves.push(m);
+        p = np;
+    }
+    Some(History { start: start.clone(), moves, end: p })
+}
+
 /// Expected record: from-scratch key of every position of the game -> occurrence count.
 pub fn expected_table(hist: &History, h: &ZobristHasher) -> (HashMap<u64, u32>, u32) {
     let mut m: HashMap<u64, u32> = HashMap::new();
@@ -75,9 +116,9 @@ pub fn expected_table(hist: &History, h: &ZobristHasher) -> (HashMap<u64, u32>, 
     (m, max)
 }
 
-pub fn compare_table(hist: &History, got: &[(u64, u8)], h: &ZobristHasher) -> Option<String> {
+pub fn compare_table(hist: &History, got: &[(u64, u32)], h: &ZobristHasher) -> Option<String> {
     let (want, _) = expected_table(hist, h);
-    let gotm: HashMap<u64, u32> = got.iter().map(|(k, v)| (*k, *v as u32)).collect();
+    let gotm: HashMap<u64, u32> = got.iter().map(|(k, v)| (*k, *v)).collect();
     let mut wrong = Vec::new();
     // name the positions by walking the game again
     let mut p = hist.start.clone();
@@ -150,7 +191,7 @@ pub fn lost_positions(rng: &mut Rng, starts: &[Pos]) -> Vec<Pos> {
 
 pub fn run(tier: Tier, seed: u64) -> i32 {
     let mut run = Run::new("C10", tier, seed, "exploration");
-    run.rule = "part a: evaluation = one game history (<= 400 plies, 1-3 repetition sites with 1..99 cycles each, irreversible moves in between, startpos and fen forms) loaded through the real position handler function; the repetition record must equal the oracle's occurrence count of every position (identity: placement, side, rights, ep file) with no other non-zero entry; sessions of several position commands on the hooked binary observe the same after the real handler's clear(). part b: evaluation = one search (virtual clock, depth limits 1..5, and timed go on the real binary) from a root where the side to move is materially lost and has a move into a position that already occurred n >= 2 times (n = 2, 3, 4, 5); refuter: the last info score of a completed depth is below zero. Non-trivial (a) = a history whose maximum count is >= 2, (b) = every such root; distinct by position command (+ depth limit)".into();
+    run.rule = "part a: evaluation = one game history (<= 400 plies, 1-3 repetition sites with 1..99 cycles each, irreversible moves in between, startpos and fen forms; one history per job is a very long game of 1000-2400 plies whose shuffle repeats 253..600 times) loaded through the real position handler function; the repetition record must equal the oracle's occurrence count of every position (identity: placement, side, rights, ep file) with no other non-zero entry; sessions of several position commands on the hooked binary observe the same after the real handler's clear(). part b: evaluation = one search (virtual clock, depth limits 1..5, and timed go on the real binary) from a root where the side to move is materially lost and has a move into a position that already occurred n >= 2 times (n = 2, 3, 4, 5 and, for very long games, 255, 256, 257, 258, 512); refuter: the last info score of a completed depth is below zero. Non-trivial (a) = a history whose maximum count is >= 2, (b) = every such root; distinct by position command (+ depth limit)".into();
     run.assumptions = vec![
         "expected keys are computed from scratch through the hasher's getters (C05 covers key = position)".into(),
         "zero-count entries of the record are ignored (readers use unwrap_or(&0))".into(),
@@ -166,12 +207,14 @@ pub fn run(tier: Tier, seed: u64) -> i32 {
         let mut rng = Rng::stream(seed, 10_000 + j as u64);
         for i in 0..40 {
             let start = if rng.chance(1, 2) { Pos::start() } else { starts[rng.below(starts.len() as u64) as usize].clone() };
-            let hist = rich_history(&start, &mut rng, 400);
+            // one history per job is a very long game: counts around and beyond 255, 511
+            let long_cycles = [253usize, 254, 255, 256, 257, 300, 510, 511, 512, 600][j % 10];
+            let hist = if i == 1 { long_history(&start, &mut rng, long_cycles).unwrap_or_else(|| rich_history(&start, &mut rng, 400)) } else { rich_history(&start, &mut rng, 400) };
             acc.evaluations += 1;
             let (_, maxc) = expected_table(&hist, &h);
             let cmd = hist.command();
             if maxc >= 2 && acc.distinct.insert(hash64(&cmd)) {
-                acc.feature(if maxc >= 50 { "count_50_or_more" } else if maxc >= 3 { "count_3_or_more" } else { "count_2" });
+                acc.feature(if maxc >= 256 { "count_256_or_more" } else if maxc >= 50 { "count_50_or_more" } else if maxc >= 3 { "count_3_or_more" } else { "count_2" });
             }
             acc.max("max_history_plies", hist.moves.len() as u64);
             acc.max("max_repetition_count", maxc as u64);
@@ -203,6 +246,12 @@ pub fn run(tier: Tier, seed: u64) -> i32 {
             for n in [2usize, 3, 4, 5] {
                 roots_spec.push((i, n));
             }
+        }
+    }
+    // very long games: the target position occurred 255, 256, 257, 258 times
+    for i in 0..lost.len().min(tier.pick(6, 1000)) {
+        for n in [255usize, 256, 257, 258, 512] {
+            roots_spec.push((i, n));
         }
     }
     let results = par::par_map(roots_spec.len(), |j| {
